@@ -48,3 +48,11 @@ func (r *rng) mix(anchors []uint64, spread int, max uint64) uint64 {
 	}
 	return r.u64() % (max + 1)
 }
+
+func sortStrings(xs []string) {
+	for i := 1; i < len(xs); i++ {
+		for j := i; j > 0 && xs[j] < xs[j-1]; j-- {
+			xs[j], xs[j-1] = xs[j-1], xs[j]
+		}
+	}
+}
